@@ -127,6 +127,8 @@ _STILL = Image.new("RGB", (4, 8), (10, 20, 200))
 
 
 N_FRAMES = 2
+PROTO_LOOPS = 3  # loops of the cached entry points `iterc` / `animc` (TIV.C20.protoLoops)
+RESIZED_WIDTH = 4  # `set_size(width=…)` after the first loop (rendered height 2 -> 4)
 
 
 def make_instance(cls, animated=True):
@@ -136,9 +138,9 @@ def make_instance(cls, animated=True):
     return cls(_STILL, width=2)
 
 
-def classify_render(inst, out: str) -> str:
-    """Which render method produced `out` (from its framing only)."""
-    h = inst.rendered_height
+def classify_render(inst, out: str, h=None) -> str:
+    """Which render method produced `out` (from its framing only); `h` = height the frame was rendered at."""
+    h = inst.rendered_height if h is None else h
     if h < 2:
         return "?height"
     if not isinstance(type(inst), T2.ITerm2ImageMeta) and "\x1b_G" in out:
@@ -194,8 +196,8 @@ def render(inst, override, entry="static"):
         if override is not None:
             raise LookupError("out of model")
         return classify_render(inst, str(inst))
-    if entry in ("fmt", "iter"):
-        if entry == "iter" and not inst.is_animated:
+    if entry in ("fmt", "iter", "iterc"):
+        if entry != "fmt" and not inst.is_animated:
             TI.ImageIterator(inst, 1, "1.1")  # raises ValueError
             return "?not-raised"
         if override is None:
@@ -206,6 +208,26 @@ def render(inst, override, entry="static"):
             raise LookupError("out of model")
         if entry == "fmt":
             return classify_render(inst, format(inst, spec))
+        if entry == "iterc":
+            # cached, three loops, the image is resized after the first loop: frames of the later loops
+            # are rendered anew (stale size hash) and must still carry the per-call method
+            it = TI.ImageIterator(inst, PROTO_LOOPS, spec, cached=True)
+            kinds = []
+            try:
+                h = inst.rendered_height
+                for _ in range(N_FRAMES):
+                    kinds.append(classify_render(inst, next(it), h))
+                inst.set_size(width=RESIZED_WIDTH)
+                h = inst.rendered_height
+                for frame in it:
+                    kinds.append(classify_render(inst, frame, h))
+            finally:
+                it.close()
+                inst.set_size(width=2)
+            if len(kinds) != N_FRAMES * PROTO_LOOPS:
+                return f"?frames:{len(kinds)}"
+            kinds = set(kinds)
+            return kinds.pop() if len(kinds) == 1 else "?mixed:" + "+".join(sorted(kinds))
         it = TI.ImageIterator(inst, 1, spec)
         try:
             kinds = {classify_render(inst, frame) for frame in it}
@@ -216,16 +238,39 @@ def render(inst, override, entry="static"):
     out = io.StringIO()
     real_sleep = time.sleep
     time.sleep = _no_sleep
+    h0 = inst.rendered_height
     try:
         with contextlib.redirect_stdout(out):
             if entry == "draw":
                 inst.draw("left", 0, "top", 1, animate=False, **style)
             elif entry == "anim":
                 inst.draw("left", 0, "top", 1, repeat=1, **style)
+            elif entry == "animc":
+                # cached animation over three loops; the image is resized while the last frame of the
+                # first loop is on display (the first "sleep"), i.e. before the first cached frame is due
+                calls = []
+
+                def resize_once(_):
+                    if not calls:
+                        inst.set_size(width=RESIZED_WIDTH)
+                    calls.append(1)
+
+                time.sleep = resize_once
+                try:
+                    inst.draw("left", 0, "top", 1, repeat=PROTO_LOOPS, cached=True, **style)
+                    h1 = inst.rendered_height
+                finally:
+                    inst.set_size(width=2)
             else:
                 raise LookupError("out of model")
     finally:
         time.sleep = real_sleep
+    if entry == "animc" and inst.is_animated:
+        chunks = out.getvalue().split("\r")
+        if len(chunks) != N_FRAMES * PROTO_LOOPS:
+            return f"?frames:{len(chunks)}"
+        kinds = {classify_render(inst, c, h0 if k < N_FRAMES else h1) for k, c in enumerate(chunks)}
+        return kinds.pop() if len(kinds) == 1 else "?mixed:" + "+".join(sorted(kinds))
     if entry == "anim" and inst.is_animated:
         return classify_stream(inst, out.getvalue())
     return classify_render(inst, out.getvalue())
@@ -514,7 +559,7 @@ def check_history(ops, res, snaps, w: Shadow):
             entry = f[3] if len(f) > 3 else "static"
             fam = sp.family(sp.w.inst_cls[i])
             animated = sp.w.inst_anim[i]
-            if entry == "iter" and not animated:
+            if entry in ("iter", "iterc") and not animated:
                 if r != "!ValueError":
                     return ("render/iterator-over-still-image", f"{where}: ImageIterator over a non-animated image gave {r}", n)
             elif fam is not None:
@@ -526,7 +571,7 @@ def check_history(ops, res, snaps, w: Shadow):
                     resolved = resolved.lower() if isinstance(resolved, str) else resolved
                     # documented: ANIM -> WHOLE for the separate frames of an animation / iterator and
                     # for non-animated images
-                    frames = entry == "iter" or (entry == "anim" and animated)
+                    frames = entry in ("iter", "iterc") or (entry in ("anim", "animc") and animated)
                     exp = "whole" if resolved == "anim" and (frames or not animated) else resolved
                     if r != f"m:{exp}":
                         return (f"render/uses-effective/{entry}/{'with' if ov is not None else 'without'}-override",
@@ -542,7 +587,7 @@ def check_history(ops, res, snaps, w: Shadow):
 # --------------------------------------------------------------------------------------
 # generator
 
-ENTRIES = ["static", "str", "fmt", "draw", "anim", "anim", "iter", "iter"]
+ENTRIES = ["static", "str", "fmt", "draw", "anim", "iter", "iterc", "iterc", "animc", "animc"]
 CASINGS = [str.lower, str.upper, str.title, lambda s: s[0] + s[1:].upper(), str.lower]
 BAD_RM = ["foo", "", "line", "lines ", "wholK", "İnes", "LINES\n"]
 
@@ -684,7 +729,7 @@ class Gen:
                     entry = rng.choice(ENTRIES)
                     if entry == "str" or rng.random() < 0.5:
                         ov = "N"
-                    elif entry in ("fmt", "iter"):
+                    elif entry in ("fmt", "iter", "iterc"):
                         ov = enc(rng.choice(CASINGS)(rng.choice(sorted(METHODS[fam]))))
                     else:
                         ov = self.value("rm", fam, 0.75)
@@ -742,7 +787,7 @@ def entry_family(n_lib, kitty, iterm):
                     lvl, m2 = near
                     ops += [f"set,rm,c{a},{S(m2)}"] if lvl == "class" else [f"set,rm,i0,{S(m2)}", f"set,rm,i1,{S(m2.title())}"]
                 for i in (0, 1):
-                    for entry in ("static", "str", "fmt", "draw", "anim", "iter"):
+                    for entry in ("static", "str", "fmt", "draw", "anim", "iter", "iterc", "animc"):
                         ops.append(f"rend,{i},N,{entry}")
                         if entry != "str":
                             ops += [f"rend,{i},{S(m)},{entry}" for m in names]
